@@ -110,6 +110,28 @@ def layout(t, tree):
     return tuple(out)
 
 
+def lone_inline(t, tree):
+    """True if some NON-root interior node of the (writer's) tree currently serialises its
+    single, never-stored leaf inline (its __getstate__ has the one-element form)."""
+    if not tree:
+        return False
+    found = [False]
+
+    def rec(n, root):
+        st = n.__getstate__()
+        if st is None:
+            return
+        if len(st) == 1:
+            if not root:
+                found[0] = True
+            return
+        for j, x in enumerate(st[0]):
+            if j % 2 == 0 and isinstance(x, type(t)):
+                rec(x, False)
+    rec(t, True)
+    return found[0]
+
+
 def txn_alphabet(ctx, keys, vals, L):
     base = S.slim_alphabet(ctx, keys, vals)
     if ctx.is_map:
@@ -176,6 +198,12 @@ def verify_reader(ctx, world, sizes, want, report, guards, what):
     from BTrees.check import check as bcheck
     tree = ctx.is_tree
     guards['reader_checks'] += 1
+    nprob = [0]
+    _report = report
+
+    def report(site, cls, detail):
+        nprob[0] += 1
+        _report(site, cls, detail)
     try:
         r = world.reader()
         got = O.contents(ctx, r)
@@ -214,7 +242,7 @@ def verify_reader(ctx, world, sizes, want, report, guards, what):
             world.t._check()
         except Exception as e:      # noqa
             report('writer', '_check', '%s: writer _check() -> %r' % (what, e))
-    return cr
+    return cr if not nprob[0] else None
 
 
 def job(fam, kind, impl, sizes, n, L):
@@ -237,7 +265,8 @@ def job(fam, kind, impl, sizes, n, L):
         txns, extra = txn_alphabet(ctx, keys, vals, L)
     guards = collections.Counter()
     outcomes = collections.Counter()
-    violations = []
+    from ..report import Reporter
+    rep = Reporter('C04')
     base = dict(fam=fam, kind=kind, impl=impl, sizes=sizes, n=n, L=L)
 
     def rebuild(hist):
@@ -252,16 +281,14 @@ def job(fam, kind, impl, sizes, n, L):
     frontier = collections.deque([(prefix_hist, k0)])
     if prefix_hist:
         def report0(site, cls, detail):
-            violations.append(dict(
-                prop='C04', sig=dict(fam=fam, kind=kind, impl=impl, site=site, cls=cls,
-                                     action='commit', first_op='build', last_op='build'),
-                case=dict(base, history=[], ops=list(prefix_hist[0]), action='commit'),
-                detail=detail))
+            rep.add(dict(fam=fam, kind=kind, impl=impl, site=site, cls=cls,
+                         action='commit', first_op='build', last_op='build'),
+                    dict(base, history=[], ops=list(prefix_hist[0]), action='commit'), detail)
         verify_reader(ctx, w0, sizes, w0.model.contents(), report0, guards, 'scripted build')
     states, transitions, compared = 1, 0, 0
     sample = None
     while frontier:
-        if len(violations) >= 40:
+        if rep.full:
             break
         hist, key = frontier.popleft()
         first = True
@@ -277,16 +304,21 @@ def job(fam, kind, impl, sizes, n, L):
                         raise RuntimeError('replay of %r did not reproduce its state' % (hist,))
                 committed = w.model.contents()
 
-                def report(site, cls, detail, _ops=ops, _action=action):
-                    violations.append(dict(
-                        prop='C04', sig=dict(fam=fam, kind=kind, impl=impl, site=site, cls=cls,
-                                             action=_action, first_op=_ops[0][0], last_op=_ops[-1][0]),
-                        case=dict(base, history=[list(x) for x in hist], ops=list(_ops), action=_action),
-                        detail=detail))
+                flags = {}
+
+                def report(site, cls, detail, _ops=ops, _action=action, _flags=flags):
+                    rep.add(dict(fam=fam, kind=kind, impl=impl, site=site, cls=cls,
+                                 action=_action, first_op=_ops[0][0], last_op=_ops[-1][0],
+                                 lone_inline=_flags.get('lone', False)),
+                            dict(base, history=[list(x) for x in hist], ops=list(_ops),
+                                 action=_action), detail)
                 before_h = C.shape_stats(key[0]) if tree else None
                 newmodel = w.run(ops)
                 transitions += 1
                 if action == 'commit':
+                    flags['lone'] = lone_inline(w.t, tree)
+                    if flags['lone']:
+                        guards['lone_inline_commits'] += 1
                     try:
                         stored = w.commit(newmodel)
                     except Exception as e:      # noqa
@@ -345,14 +377,15 @@ def job(fam, kind, impl, sizes, n, L):
                     # and the writer is still usable: the same transaction now commits fine
                     try:
                         m2 = w.run(ops)
+                        flags['lone'] = lone_inline(w.t, tree)
                         w.commit(m2)
                         verify_reader(ctx, w, sizes, m2.contents(), report, guards,
                                       'commit of %r after an abort of the same ops' % (ops,))
                     except Exception as e:      # noqa
                         report('abort', 'exc-' + type(e).__name__, 'retry after abort: %r' % (e,))
     return dict(states=states, transitions=transitions, compared=compared,
-                evaluations=transitions, distinct=states, exhaustive=len(violations) < 40,
-                guards=dict(guards), outcomes=dict(outcomes), violations=violations, sample=sample)
+                evaluations=transitions, distinct=states, exhaustive=not rep.full,
+                guards=dict(guards), outcomes=dict(outcomes), violations=rep.all(), sample=sample)
 
 
 def script_job(fam, kind, impl):
